@@ -90,7 +90,10 @@ ParseFloatContract(ev) ==
             ELSE IF r.n # n THEN << << "C11", "accepted input not consumed in full" >> >>
             ELSE LET w == FloatValueWhy(ev, f, sc) IN V(w = "", ValueProp(ev, f), w)
         ELSE IF sp.k # "no" THEN
-            IF r.k # "ok" THEN << << "C15", "special string not accepted" >> >>
+            \* a special string without a sign under required_mantissa_sign: the grammar of numbers demands the sign, the
+            \* documentation of the special strings does not say - accepted or MissingSign, both pass
+            IF f.required_mantissa_sign /\ n >= 1 /\ s[1] \notin {CPlus, CMinus} THEN << >>
+            ELSE IF r.k # "ok" THEN << << "C15", "special string not accepted" >> >>
             ELSE IF r.n # n THEN << << "C15", "special string not consumed in full" >> >>
             ELSE IF r.v.cls # sp.k THEN << << "C15", "special string parsed to the wrong class" >> >>
             ELSE V(sp.k = "nan" \/ r.v.neg = sp.neg, "C15", "sign of infinity not preserved")
@@ -299,8 +302,13 @@ WriteFloatContract(ev) ==
                    ELSE << >>)
         ELSE IF r.k # "ok" THEN bc
         ELSE bc \o V(AllAscii(r.out, 1), "C17", "non-ASCII byte written")
-          \o (IF v.cls = "nan" THEN V(r.out = o.nan, "C15", "NaN not written as the configured string (or written with a sign)")
-              ELSE IF v.cls = "inf" THEN V(r.out = (IF v.neg THEN << CMinus >> ELSE << >>) \o o.inf, "C15", "infinity not written as [-]inf string")
+          \* under required_mantissa_sign the reader of the same format demands a sign on every input, specials included:
+          \* whether "+NaN" / "+inf" or the bare strings are written there is not documented - both are accepted
+          \o (IF v.cls = "nan" THEN V(r.out = o.nan \/ (f.required_mantissa_sign /\ r.out = << CPlus >> \o o.nan), "C15",
+                                     "NaN not written as the configured string (or written with a sign)")
+              ELSE IF v.cls = "inf" THEN V(r.out = (IF v.neg THEN << CMinus >> ELSE << >>) \o o.inf
+                                             \/ (f.required_mantissa_sign /\ ~v.neg /\ r.out = << CPlus >> \o o.inf),
+                                           "C15", "infinity not written as [-]inf string")
               ELSE LET sc == ScanComplete("float", f, WFAsPF(o), r.out, Len(r.out)) IN
                    IF sc.v = "U" THEN << >>
                    ELSE IF sc.v # "A" THEN
@@ -495,7 +503,9 @@ TrimFollows(c, b) ==
         fh == SegHi(sc.segs, "frac", Len(sc.segs))
         integral == sc.hasPoint /\ AllZero(sc.frac, 1, Len(sc.frac))
     IN  sc.v = "A" =>
-          b.res.out = (IF integral THEN RemoveRange(c.res.out, pp, IF fh = 0 THEN pp ELSE fh) ELSE c.res.out)
+          \/ b.res.out = (IF integral THEN RemoveRange(c.res.out, pp, IF fh = 0 THEN pp ELSE fh) ELSE c.res.out)
+          \* a format that forbids an exponent without a fraction cannot have "1.0e-7" trimmed to "1e-7"
+          \/ (FmtOf(c).no_exponent_without_fraction /\ sc.hasExp /\ b.res.out = c.res.out)
 
 TrimRelationAt(o, i) ==
     LET b == o[i] IN
@@ -551,7 +561,9 @@ LossyAgreesAt(o, i) ==
 SepFreeSameAt(o, i) ==
     LET b == o[i] IN
     (b.op = "parse" /\ HasSeparator(FmtOf(b)) /\ ~ContainsByte(b.in, FmtOf(b).digit_separator, 1) /\ ~Abnormal(b.res)
-       /\ ConfigValidity(b, IsFloatTy(b.ty)) = "valid") =>
+       /\ ConfigValidity(b, IsFloatTy(b.ty)) = "valid"
+       \* what a partial integer parse returns when there is no digit at all is unspecified (IntParse: "uns")
+       /\ ~(b.partial /\ ~IsFloatTy(b.ty) /\ IntParseSpec(IntTypes[b.ty], Radix(FmtOf(b)), b.in, b.len, TRUE).k = "uns")) =>
     \A j \in Others(o, i) :
         LET a == o[j] IN
         (a.op = "parse" /\ a.ty = b.ty /\ a.cfg = b.cfg /\ a.api = b.api /\ a.partial = b.partial /\ a.in = b.in
